@@ -31,6 +31,14 @@ class Recipient(t.Generic[KeyType]):
             rv.update(self.header)
         return rv
 
+    def header_parts(self) -> t.List[t.Optional[Header]]:
+        """The header locations this recipient's JOSE header is merged from."""
+        parts: t.List[t.Optional[Header]] = [self.__parent.protected]
+        if isinstance(self.__parent, BaseJSONEncryption):
+            parts.append(self.__parent.unprotected)
+        parts.append(self.header)
+        return parts
+
     def add_header(self, k: str, v: t.Any) -> None:
         if isinstance(self.__parent, CompactEncryption):
             self.__parent.protected.update({k: v})
